@@ -47,15 +47,24 @@ def find_nulls_drop_rows(ctx, prop="C06"):
                         if ik == "dup":
                             s2.index = ["p"] * n
                         b.case(("series", dt, mask, ik), nontrivial=bool(want), sample={"container": "Series", "dtype": dt, "mask": list(mask), "index": ik})
-                        got = set(int(i) for i in find_nulls(s2))
+                        try:
+                            got = set(int(i) for i in find_nulls(s2))
+                        except Exception as e:  # noqa: BLE001  (an exception of the function under test is an outcome, never a crash of the checker)
+                            got = {f"raises {type(e).__name__}"}
                         code = (f"import pandas as pd, numpy as np\nfrom formulaic.utils.null_handling import find_nulls\n"
                                 f"s = pd.Series({[None if m else (i + 1) for i, m in enumerate(mask)]!r}, dtype={'object' if dt in ('object','str','category','datetime64') else dt!r})\n"
                                 f"assert set(map(int, find_nulls(s))) == {want!r}, find_nulls(s)\n")
                         if got != want:
                             b.fail(f"{prop}.assumed.find_nulls", {"container": "Series", "dtype": dt, "mask": list(mask), "cls": f"series:{dt}", "code": code},
                                    f"find_nulls -> {sorted(got)}, null positions are {sorted(want)}")
-                        kept = drop_rows(s2, sorted(want))
                         exp = [v for i, v in enumerate(s2.tolist()) if i not in want]
+                        try:
+                            kept = drop_rows(s2, sorted(want))
+                            kept.tolist()
+                        except Exception as e:  # noqa: BLE001
+                            b.fail(f"{prop}.assumed.drop_rows", {"container": "Series", "dtype": dt, "mask": list(mask), "index": ik, "cls": f"series:{dt}:{ik}:raises-{type(e).__name__}",
+                                                                 "code": code}, f"drop_rows raised {type(e).__name__}: {e}")
+                            continue
                         if len(kept) != len(exp) or any(not (a == e or (pd.isna(a) and pd.isna(e))) for a, e in zip(kept.tolist(), exp)):
                             b.fail(f"{prop}.assumed.drop_rows", {"container": "Series", "dtype": dt, "mask": list(mask), "index": ik, "cls": f"series:{dt}:{ik}",
                                                                  "code": code.replace("find_nulls", "find_nulls")},
@@ -65,7 +74,24 @@ def find_nulls_drop_rows(ctx, prop="C06"):
                 for name, val in (("ndarray1d", arr), ("ndarray2d", np.column_stack([arr, np.ones(n)])), ("list", list(arr)),
                                   ("dict", {"a": arr, "b": np.ones(n)}), ("sparse", sp.csc_matrix(arr.reshape(-1, 1)))):
                     b.case((name, mask), nontrivial=bool(want), sample={"container": name, "mask": list(mask)})
-                    got = set(int(i) for i in find_nulls(val))
+                    try:
+                        got = set(int(i) for i in find_nulls(val))
+                    except Exception as e:  # noqa: BLE001
+                        got = {f"raises {type(e).__name__}"}
+                    if name == "list":
+                        # drop_rows on a plain list: exactly the elements at the other positions, in order (distinct values: 1.5 + i)
+                        vals = [10.5 + i for i in range(n)]
+                        for drop in ([i for i in range(n) if (sub >> i) & 1] for sub in range(2 ** n)):
+                            expd = [v for i, v in enumerate(vals) if i not in drop]
+                            try:
+                                keptl = list(drop_rows(list(vals), drop))
+                            except Exception as e:  # noqa: BLE001
+                                keptl = f"raises {type(e).__name__}"
+                            if keptl != expd:
+                                b.fail(f"{prop}.assumed.drop_rows", {"container": "list", "values": vals, "drop": drop, "cls": "list",
+                                                                     "code": "from formulaic.utils.null_handling import drop_rows\n"
+                                                                             f"assert list(drop_rows({vals!r}, {drop!r})) == {expd!r}, drop_rows({vals!r}, {drop!r})\n"},
+                                       f"drop_rows({vals}, {drop}) -> {keptl}, expected {expd}")
                     if got != want:
                         b.fail(f"{prop}.assumed.find_nulls", {"container": name, "mask": list(mask), "cls": name,
                                                              "code": "import numpy as np\nfrom formulaic.utils.null_handling import find_nulls\n"
